@@ -88,7 +88,16 @@ func c10(c *Ctx) {
 		c10progress(c, fn)
 		c10distinct(c, fn)
 	}
-	c10makeAppend(c, suppressPkg, "pkg/util/cpuset", "pkg/koordlet/qosmanager/helpers")
+	if c.Thorough() {
+		// sweep: every repo package (the same defect pattern anywhere a length feeds a limit)
+		var all []string
+		for _, pk := range c.P.Pkgs {
+			all = append(all, strings.TrimPrefix(pk.PkgPath, load.Module+"/"))
+		}
+		c10makeAppend(c, all...)
+	} else {
+		c10makeAppend(c, suppressPkg, "pkg/util/cpuset", "pkg/koordlet/qosmanager/helpers")
+	}
 }
 
 // c10progress: each selection loop of calculateBESuppressCPUSetPolicy starts with a fresh no-progress marker.
